@@ -761,12 +761,25 @@ def has_side_effect(node: ast.AST, safe_callable_whitelist: Collection[str] = fr
 
 @functools.lru_cache(maxsize=100)
 def _get_line_start_charnos(source: str) -> Sequence[int]:
+    # Lines are split like the python tokenizer does (\n, \r\n and \r), since that is what ast line
+    # numbers refer to. str.splitlines() also splits on form feeds and unicode line separators.
     start = 0
     charnos = []
-    for line in source.splitlines(keepends=True):
+    for line in re.findall(r"[^\r\n]*(?:\r\n|\r|\n)|[^\r\n]+\Z", source):
         charnos.append(start)
         start += len(line)
     return tuple(charnos)
+
+
+def _get_charno(source: str, line_start_charnos: Sequence[int], lineno: int, col_offset: int) -> int:
+    """Character number of an ast position. ast col_offsets are utf-8 byte offsets, not characters."""
+    line_start = line_start_charnos[lineno - 1]
+    line_end = line_start_charnos[lineno] if lineno < len(line_start_charnos) else len(source)
+    line = source[line_start:line_end]
+    if line.isascii():
+        return line_start + col_offset
+
+    return line_start + len(line.encode("utf-8")[:col_offset].decode("utf-8", errors="ignore"))
 
 
 class Range(NamedTuple):
@@ -859,11 +872,15 @@ def get_charnos(node: ast.AST, source: str, keep_first_indent: bool = False) -> 
     start_position = _get_position(start)
     node_position = _get_position(node)
 
-    start_charno = line_start_charnos[start_position.lineno - 1] + start_position.col_offset
+    start_charno = _get_charno(
+        source, line_start_charnos, start_position.lineno, start_position.col_offset
+    )
     if getattr(node, "end_lineno", None) is None:
         return Range(start_charno, start_charno)
 
-    end_charno = line_start_charnos[node_position.end_lineno - 1] + node_position.end_col_offset
+    end_charno = _get_charno(
+        source, line_start_charnos, node_position.end_lineno, node_position.end_col_offset
+    )
 
     code = source[start_charno:end_charno]
     if code and code[0] == " ":
